@@ -107,8 +107,13 @@ func c11Variants() []c11Variant {
 		func(ar *pb.ActionResult) { ar.StdoutDigest = nil },
 		func(ar *pb.ActionResult) { ar.StderrDigest = nil },
 		func(ar *pb.ActionResult) { ar.ExitCode = 0 },
-		func(ar *pb.ActionResult) { ar.OutputFiles[0].IsExecutable = false; ar.OutputFiles[1].IsExecutable = true },
-		func(ar *pb.ActionResult) { ar.OutputFiles[1].NodeProperties = &pb.NodeProperties{Properties: []*pb.NodeProperty{{Name: "n", Value: "v"}}} },
+		func(ar *pb.ActionResult) {
+			ar.OutputFiles[0].IsExecutable = false
+			ar.OutputFiles[1].IsExecutable = true
+		},
+		func(ar *pb.ActionResult) {
+			ar.OutputFiles[1].NodeProperties = &pb.NodeProperties{Properties: []*pb.NodeProperty{{Name: "n", Value: "v"}}}
+		},
 	} {
 		vs = append(vs, c11Variant{fmt.Sprintf("valid-part-dropped-%d", di), true, drop})
 	}
@@ -492,84 +497,103 @@ func fieldTail(name string) string {
 func c11Inline(rep *vlib.Report, f *fx, mode string) {
 	const budget = 3 << 20
 	sizes := map[string]int{"small": 1000, "exactly-budget": budget, "over-budget": budget + 1}
-	for sn, n := range sizes {
-		content := vlib.Bytes("c11/inline/"+mode+"/"+sn, n, false)
-		dg := &pb.Digest{Hash: vlib.Sha(content), SizeBytes: int64(n)}
-		if r := f.upload(upReq{path: "bs", hash: dg.Hash, size: dg.SizeBytes, wire: content, abortAfter: -1}); !r.ok {
-			rep.BrokenHarness("inline blob upload: %s", r.status)
-			return
-		}
-		small := []byte("small stderr " + sn)
-		fileC := []byte("file contents " + sn)
-		ar := &pb.ActionResult{
-			StdoutDigest: dg,
-			StderrRaw:    small, // uploaded inline without digest
-			OutputFiles:  []*pb.OutputFile{{Path: "f", Contents: fileC, Digest: &pb.Digest{Hash: vlib.Sha(fileC), SizeBytes: int64(len(fileC))}}},
-			ExitCode:     1,
-		}
-		key := vlib.Sha([]byte("c11 inline key " + mode + sn))
-		if ok, st := f.c11Put("grpc", key, proto.Clone(ar).(*pb.ActionResult)); !ok {
-			rep.Violate("C11 inline upload refused", fmt.Sprintf("mode=%s %s: %s", mode, sn, st), nil)
-			continue
-		}
-		// the inlined bytes are in the CAS under their true digests
-		for what, b := range map[string][]byte{"stderr_raw": small, "output file contents": fileC} {
-			fm, _, _ := f.present(vlib.Sha(b), int64(len(b)))
-			rep.Eval()
-			if !fm {
-				rep.Violate("C11 inlined bytes not stored in the CAS", fmt.Sprintf("mode=%s %s: %s uploaded inline is not in the CAS under its SHA-256", mode, sn, what), nil)
-			}
-		}
-		for mask := 0; mask < 8; mask++ {
-			rep.Eval()
-			inOut, inErr, inFile := mask&1 != 0, mask&2 != 0, mask&4 != 0
-			req := &pb.GetActionResultRequest{ActionDigest: &pb.Digest{Hash: key, SizeBytes: 9}, InlineStdout: inOut, InlineStderr: inErr}
-			if inFile {
-				req.InlineOutputFiles = []string{"f"}
-			}
-			ctx, cancel := ctxT()
-			got, err := f.ac.GetActionResult(ctx, req)
-			cancel()
-			id := fmt.Sprintf("mode=%s stdout=%s(%d bytes) inline_stdout=%v inline_stderr=%v inline_files=%v", mode, sn, n, inOut, inErr, inFile)
-			k := "C11 inline " + sn
-			if err != nil {
-				if status.Code(err) == codes.ResourceExhausted {
-					continue
-				}
-				rep.Violate(k+" read failed", fmt.Sprintf("%s: %v", id, err), nil)
+	for _, upFront := range []string{"grpc", "http-proto"} {
+		for sn, n := range sizes {
+			if upFront != "grpc" && sn != "small" {
 				continue
 			}
-			// stdout
-			wantOut := inOut && n <= budget
-			if wantOut != (len(got.StdoutRaw) > 0) {
-				rep.Violate(k+" stdout inlining does not follow request and budget", fmt.Sprintf("%s: stdout_raw has %d bytes", id, len(got.StdoutRaw)), nil)
-			} else if wantOut && !bytes.Equal(got.StdoutRaw, content) {
-				rep.Violate(k+" inlined stdout differs from the blob", id, nil)
+			content := vlib.Bytes("c11/inline/"+mode+"/"+sn+"/"+upFront, n, false)
+			dg := &pb.Digest{Hash: vlib.Sha(content), SizeBytes: int64(n)}
+			if r := f.upload(upReq{path: "bs", hash: dg.Hash, size: dg.SizeBytes, wire: content, abortAfter: -1}); !r.ok {
+				rep.BrokenHarness("inline blob upload: %s", r.status)
+				return
 			}
-			if got.StdoutDigest == nil || got.StdoutDigest.Hash != dg.Hash {
-				rep.Violate(k+" stdout digest lost", id, nil)
+			small := []byte("small stderr " + sn + " " + upFront)
+			fileC := []byte("file contents " + sn + " " + upFront)
+			ar := &pb.ActionResult{
+				StdoutDigest: dg,
+				StderrRaw:    small, // uploaded inline without digest
+				OutputFiles:  []*pb.OutputFile{{Path: "f", Contents: fileC, Digest: &pb.Digest{Hash: vlib.Sha(fileC), SizeBytes: int64(len(fileC))}}},
+				ExitCode:     1,
 			}
-			// stderr: either inlined bytes or a digest of exactly those bytes
-			switch {
-			case len(got.StderrRaw) > 0:
-				if !bytes.Equal(got.StderrRaw, small) {
-					rep.Violate(k+" inlined stderr differs from the upload", id, nil)
+			key := vlib.Sha([]byte("c11 inline key " + mode + sn + upFront))
+			if ok, st := f.c11Put(upFront, key, proto.Clone(ar).(*pb.ActionResult)); !ok {
+				rep.Violate("C11 inline upload refused", fmt.Sprintf("mode=%s %s: %s", mode, sn, st), nil)
+				continue
+			}
+			// the inlined bytes are in the CAS under their true digests
+			for what, b := range map[string][]byte{"stderr_raw": small, "output file contents": fileC} {
+				if upFront != "grpc" {
+					break // the HTTP front end stores the message as it is; de-inlining happens on the way out
 				}
-			case got.StderrDigest == nil || got.StderrDigest.Hash != vlib.Sha(small) || got.StderrDigest.SizeBytes != int64(len(small)):
-				rep.Violate(k+" de-inlined stderr has no (or a wrong) digest", fmt.Sprintf("%s: stderr_digest=%v", id, got.StderrDigest), nil)
+				fm, _, _ := f.present(vlib.Sha(b), int64(len(b)))
+				rep.Eval()
+				if !fm {
+					rep.Violate("C11 inlined bytes not stored in the CAS", fmt.Sprintf("mode=%s %s: %s uploaded inline is not in the CAS under its SHA-256", mode, sn, what), nil)
+				}
 			}
-			if inErr && len(got.StderrRaw) == 0 && !(inOut && n <= budget && n+len(small) > budget) {
-				rep.Violate(k+" stderr not inlined although requested and within the budget", id, nil)
+			for mask := 0; mask < 8; mask++ {
+				rep.Eval()
+				inOut, inErr, inFile := mask&1 != 0, mask&2 != 0, mask&4 != 0
+				req := &pb.GetActionResultRequest{ActionDigest: &pb.Digest{Hash: key, SizeBytes: 9}, InlineStdout: inOut, InlineStderr: inErr}
+				if inFile {
+					req.InlineOutputFiles = []string{"f"}
+				}
+				ctx, cancel := ctxT()
+				got, err := f.ac.GetActionResult(ctx, req)
+				cancel()
+				id := fmt.Sprintf("mode=%s uploaded via %s stdout=%s(%d bytes) inline_stdout=%v inline_stderr=%v inline_files=%v", mode, upFront, sn, n, inOut, inErr, inFile)
+				k := "C11 inline " + sn
+				if err != nil {
+					if status.Code(err) == codes.ResourceExhausted {
+						continue
+					}
+					rep.Violate(k+" read failed", fmt.Sprintf("%s: %v", id, err), nil)
+					continue
+				}
+				// stdout
+				wantOut := inOut && n <= budget
+				if wantOut != (len(got.StdoutRaw) > 0) {
+					rep.Violate(k+" stdout inlining does not follow request and budget", fmt.Sprintf("%s: stdout_raw has %d bytes", id, len(got.StdoutRaw)), nil)
+				} else if wantOut && !bytes.Equal(got.StdoutRaw, content) {
+					rep.Violate(k+" inlined stdout differs from the blob", id, nil)
+				}
+				if got.StdoutDigest == nil || got.StdoutDigest.Hash != dg.Hash {
+					rep.Violate(k+" stdout digest lost", id, nil)
+				}
+				// stderr: either inlined bytes or a digest of exactly those bytes
+				switch {
+				case len(got.StderrRaw) > 0:
+					if !bytes.Equal(got.StderrRaw, small) {
+						rep.Violate(k+" inlined stderr differs from the upload", id, nil)
+					}
+				case got.StderrDigest == nil || got.StderrDigest.Hash != vlib.Sha(small) || got.StderrDigest.SizeBytes != int64(len(small)):
+					rep.Violate(k+" de-inlined stderr has no (or a wrong) digest", fmt.Sprintf("%s: stderr_digest=%v", id, got.StderrDigest), nil)
+				}
+				if inErr && len(got.StderrRaw) == 0 && !(inOut && n <= budget && n+len(small) > budget) {
+					rep.Violate(k+" stderr not inlined although requested and within the budget", id, nil)
+				}
+				// file
+				if len(got.OutputFiles) != 1 || got.OutputFiles[0].Digest == nil || got.OutputFiles[0].Digest.Hash != vlib.Sha(fileC) {
+					rep.Violate(k+" output file digest lost", id, nil)
+				} else if len(got.OutputFiles[0].Contents) > 0 && !bytes.Equal(got.OutputFiles[0].Contents, fileC) {
+					rep.Violate(k+" inlined file contents differ", id, nil)
+				} else if !inFile && len(got.OutputFiles[0].Contents) > 0 {
+					rep.Violate(k+" file contents inlined although not requested", id, nil)
+				}
+				// whatever the hit left out must be obtainable: a de-inlined field's digest resolves in the CAS
+				if len(got.OutputFiles) == 1 && len(got.OutputFiles[0].Contents) == 0 {
+					if rd := f.read("batch", vlib.Sha(fileC), int64(len(fileC)), 0, 0); !rd.ok || !bytes.Equal(rd.data, fileC) {
+						rep.Violate(k+" de-inlined file contents are not in the CAS", fmt.Sprintf("%s: the hit carries only the digest, reading it gives %s", id, rd.status), nil)
+					}
+				}
+				if len(got.StderrRaw) == 0 {
+					if rd := f.read("batch", vlib.Sha(small), int64(len(small)), 0, 0); !rd.ok || !bytes.Equal(rd.data, small) {
+						rep.Violate(k+" de-inlined stderr is not in the CAS", fmt.Sprintf("%s: the hit carries only the digest, reading it gives %s", id, rd.status), nil)
+					}
+				}
+				rep.Nontrivial(id)
 			}
-			// file
-			if len(got.OutputFiles) != 1 || got.OutputFiles[0].Digest == nil || got.OutputFiles[0].Digest.Hash != vlib.Sha(fileC) {
-				rep.Violate(k+" output file digest lost", id, nil)
-			} else if len(got.OutputFiles[0].Contents) > 0 && !bytes.Equal(got.OutputFiles[0].Contents, fileC) {
-				rep.Violate(k+" inlined file contents differ", id, nil)
-			} else if !inFile && len(got.OutputFiles[0].Contents) > 0 {
-				rep.Violate(k+" file contents inlined although not requested", id, nil)
-			}
-			rep.Nontrivial(id)
 		}
 	}
 }
